@@ -19,9 +19,9 @@ from . import common as K
 from . import store_model as SM
 
 IN = "INP"
-G1 = ["~id:a~ $[*][yes()]", "$[*][no()]", "~ name: third ~ $[1-2][#x == \"y\"]"]
+G1 = ["~id:a~ $[*][ yes() ]", "$[*][no()]", "~ name: third ~ $[1-2][#x == \"y\"]"]
 G2 = ["~ name: x\n id: b ~\n$[1*][\n #a == \"1\" ~inner~\n]", "~id:a~ $[*][yes()]", "~Id: c ~ $[2][yes()]"]
-G3 = ["~id:a~ $[*][yes()  ]", "$[*][no()]", "~ name: third ~ $[1-2][#x == \"y\"]"]   # differs from G1 only by blanks inside a csvpath
+G3 = ["~id:a~ $[*][   yes()\n ]", "$[*][no()]", "~ name: third ~ $[1-2][#x  ==  \"y\"]"]   # differs from G1 only by blanks inside a csvpath
 GROUPS = {"G1": G1, "G2": G2, "G3": G3}
 
 
@@ -81,7 +81,13 @@ def make(idx, fsbox):
         i.store["ref.name_one"] = parts[2] if len(parts) > 2 else None
         return o
 
-    h.update({"PathsMetadata": new_mdata, "CsvPath": new_csvpath, "MetadataParser": new_mp, "ReferenceParser": refparser})
+    def new_mdata_checked(i, c, r, a, k):
+        if not a and not k:
+            i.path.trace.append(("raise", "TypeError", "PathsMetadata() missing its config argument"))
+            raise Raised("TypeError")
+        return new_mdata(i, c, r, a, k)
+
+    h.update({"PathsMetadata": new_mdata_checked, "CsvPath": new_csvpath, "MetadataParser": new_mp, "ReferenceParser": refparser})
     pm = {f"PathsManager.{m}" for m in idx.cls("PathsManager").methods}
     pr = {f"PathsRegistrar.{m}" for m in idx.cls("PathsRegistrar").methods} | {"PathsRegistrar.distribute_update"}
     mp = {f"MetadataParser.{m}" for m in ("extract_metadata", "extract_csvpath_and_comment", "collect_metadata")}
